@@ -483,7 +483,7 @@ func FieldWrites(fns []*ssa.Function, field *types.Var) []WriteSite {
 		for _, b := range fn.Blocks {
 			for _, in := range b.Instrs {
 				fa, ok := in.(*ssa.FieldAddr)
-				if !ok || FieldOf(fa) != field {
+				if !ok || !sameObj(FieldOf(fa), field) {
 					continue
 				}
 				out = append(out, writesThrough(fn, fa, 0)...)
